@@ -8,6 +8,8 @@ import (
 	"hash"
 	"math/rand/v2"
 	"time"
+
+	dtls "github.com/pion/dtls/v3"
 )
 
 // C07: nothing secret leaves unprotected.
@@ -73,6 +75,11 @@ func publicOnlyExporters(label string, cr, sr []byte, n int) [][]byte {
 				out = append(out, PRF12(h, key, label, seed, n))
 				out = append(out, ExpandLabel13(h, append(make([]byte, 0), key...), label, seed, n))
 				out = append(out, hkdfExpand(h, key, append([]byte(label), seed...), n))
+			}
+			// the TLS 1.3 exporter construction over a secret that is no secret
+			empty := hashOf(h)
+			if len(key) == 0 || len(key) == len(empty) {
+				out = append(out, ExpandLabel13(h, ExpandLabel13(h, key, label, empty, len(empty)), "exporter", empty, n))
 			}
 		}
 	}
@@ -167,8 +174,29 @@ func c07Run(rc *RunCtx, params any) {
 			}
 		})
 	}
+	// what an application that asks early gets: ConnectionState() and the exporter are polled at
+	// every quiescent point while the handshake runs
+	var earlyEKM [][]byte
+	if p.MarkerSeed%2 == 0 {
+		s.OnStep = func(int64) {
+			for _, conn := range []*dtls.Conn{pair.Client, pair.Server} {
+				if st, okst := conn.ConnectionState(); okst {
+					if v, eerr := st.ExportKeyingMaterial("EXTRACTOR-dtls_srtp", nil, 60); eerr == nil && len(v) > 0 {
+						dup := false
+						for _, o := range earlyEKM {
+							dup = dup || bytes.Equal(o, v)
+						}
+						if !dup {
+							earlyEKM = append(earlyEKM, v)
+						}
+					}
+				}
+			}
+		}
+	}
 	pair.StartHandshakes(0)
 	established := s.Run(pair.BothDone, 10*time.Minute) && pair.BothOK()
+	s.OnStep = nil
 	var rdC, rdS *Reader
 	if established {
 		rdC, rdS = pair.StartReader("c"), pair.StartReader("s")
@@ -298,6 +326,23 @@ func c07Run(rc *RunCtx, params any) {
 
 						return
 					}
+					for _, early := range earlyEKM {
+						if bytes.Equal(pub, early) {
+							rc.Violate("exporter-public:early:"+protoTag(cfg.C, cfg.S), "ExportKeyingMaterial, asked while the handshake was still running, returned a value computable without any secret")
+
+							return
+						}
+					}
+				}
+				for _, early := range earlyEKM {
+					if !bytes.Equal(early, ekm) {
+						rc.Violate("exporter-unstable:"+protoTag(cfg.C, cfg.S), "ExportKeyingMaterial returned %x... while the handshake was running and %x... for the same label once it had completed", early[:8], ekm[:8])
+
+						return
+					}
+				}
+				if len(earlyEKM) > 0 {
+					s.Probe("exporter-asked-during-handshake")
 				}
 				s.Probe("exporter-not-public")
 			}
